@@ -542,7 +542,11 @@ func (fc *FuncCtx) prepare() {
 		for _, ins := range b.Instrs {
 			switch x := ins.(type) {
 			case *ssa.Defer:
-				panic(unsupported("defer"))
+				for _, li := range fc.loops {
+					if li.Body[b] {
+						panic(unsupported("defer inside a loop"))
+					}
+				}
 			case *ssa.Go:
 				panic(unsupported("go statement"))
 			case *ssa.Alloc:
